@@ -86,6 +86,7 @@ type prog struct {
 	readOnly bool
 	creates  []string // tables created and NOT committed at the moment the program can be interrupted
 	kind     string
+	atomic   []string // files written by ONE commit: after any ending they are all changed / created, or none is
 }
 
 func run(seed int64, n int, dir string, _ []string) {
@@ -117,16 +118,19 @@ func run(seed int64, n int, dir string, _ []string) {
 		return d
 	}
 	progs := []prog{
-		{"SELECT COUNT(*) FROM a; SELECT * FROM b WHERE id < 3; SELECT a.id FROM a JOIN b ON a.id = b.id WHERE a.v > 2;", true, nil, "read"},
-		{"SELECT * FROM a FOR UPDATE; SELECT COUNT(*) FROM b;", true, nil, "read-for-update"},
-		{"UPDATE a SET v = 9 WHERE id < 5; INSERT INTO b VALUES (100, 'n');", false, nil, "dml-autocommit"},
-		{"UPDATE a SET v = 9 WHERE id < 5; COMMIT; DELETE FROM b WHERE id > 20;", false, nil, "dml-commit-dml"},
-		{"UPDATE a SET v = 9 WHERE id < 5; SELECT 1 / 0;", false, nil, "dml-then-error"},
-		{"CREATE TABLE `c.csv` (x, y); INSERT INTO `c.csv` VALUES (1, 2); SELECT 1 / 0;", false, []string{"c.csv"}, "create-then-error"},
-		{"CREATE TABLE `c.csv` (x, y); INSERT INTO a VALUES (200, 1); EXIT;", false, []string{"c.csv"}, "create-then-exit"},
-		{"UPDATE a SET v = 1; ROLLBACK; SELECT COUNT(*) FROM a;", true, nil, "dml-rollback"},
-		{"CREATE TABLE `c.csv` (x, y); INSERT INTO `c.csv` VALUES (1, 2); COMMIT; UPDATE `c.csv` SET y = 3;", false, nil, "create-commit-update"},
-		{"SELECT * FROM nosuch;", true, nil, "missing-table"},
+		{"SELECT COUNT(*) FROM a; SELECT * FROM b WHERE id < 3; SELECT a.id FROM a JOIN b ON a.id = b.id WHERE a.v > 2;", true, nil, "read", nil},
+		{"SELECT * FROM a FOR UPDATE; SELECT COUNT(*) FROM b;", true, nil, "read-for-update", nil},
+		{"UPDATE a SET v = 9 WHERE id < 5; INSERT INTO b VALUES (100, 'n');", false, nil, "dml-autocommit", nil},
+		{"UPDATE a SET v = 9 WHERE id < 5; COMMIT; DELETE FROM b WHERE id > 20;", false, nil, "dml-commit-dml", nil},
+		{"UPDATE a SET v = 9 WHERE id < 5; SELECT 1 / 0;", false, nil, "dml-then-error", nil},
+		{"CREATE TABLE `c.csv` (x, y); INSERT INTO `c.csv` VALUES (1, 2); SELECT 1 / 0;", false, []string{"c.csv"}, "create-then-error", nil},
+		{"CREATE TABLE `c.csv` (x, y); INSERT INTO a VALUES (200, 1); EXIT;", false, []string{"c.csv"}, "create-then-exit", nil},
+		{"UPDATE a SET v = 1; ROLLBACK; SELECT COUNT(*) FROM a;", true, nil, "dml-rollback", nil},
+		{"CREATE TABLE `c.csv` (x, y); INSERT INTO `c.csv` VALUES (1, 2); COMMIT; UPDATE `c.csv` SET y = 3;", false, nil, "create-commit-update", nil},
+		{"SELECT * FROM nosuch;", true, nil, "missing-table", nil},
+		// one commit over a created and two updated tables: whenever the run is ended, either all three reached the disk or none
+		{"CREATE TABLE `c.csv` (x, y); INSERT INTO `c.csv` VALUES (1, 2); UPDATE a SET v = 9 WHERE id < 5; INSERT INTO b VALUES (100, 'n');", false, nil, "create-and-update-one-commit", []string{"c.csv", "a.csv", "b.csv"}},
+		{"CREATE TABLE `c.csv` (x, y); CREATE TABLE `d.csv` (z); INSERT INTO `d.csv` VALUES (7); DELETE FROM b WHERE id > 20; COMMIT; SELECT COUNT(*) FROM a;", false, nil, "two-created-one-updated-commit", []string{"c.csv", "d.csv", "b.csv"}},
 	}
 	sigs := []string{"SIGINT", "SIGTERM", "SIGQUIT"}
 	obstacles(o, bin, scratch, mk)
@@ -154,6 +158,23 @@ func run(seed int64, n int, dir string, _ []string) {
 			if _, ok := after[c]; ok && r.rc != 0 {
 				rep["uncommitted_created"] = c
 				o.Law("uncommitted_created_table_left", rep)
+			}
+		}
+		if len(p.atomic) > 0 {
+			changed := 0
+			for _, f := range p.atomic {
+				if after[f] != before[f] {
+					changed++
+				}
+			}
+			if changed != 0 && changed != len(p.atomic) {
+				rep["atomic_files"] = p.atomic
+				rep["changed"] = changed
+				o.Law("partial_commit_after_termination", rep)
+			}
+			if r.rc == 0 && changed != len(p.atomic) {
+				rep["atomic_files"] = p.atomic
+				o.Law("successful_run_did_not_commit", rep)
 			}
 		}
 		if p.readOnly {
